@@ -257,6 +257,10 @@ def run(ctx, rep):
     # the priorities compared are the documented ones (default priorities included in the property's quantifier)
     cg.rule_complexity(rep, crate)
     cg.rule_priority_parse(rep, crate)
+    cg.rule_priority_writers(rep, crate)
+    # the languages compared are the documented ones: literals are escaped by regex_syntax, subpatterns are spliced as flag-scoped groups
+    cg.rule_literal_escape(rep, crate)
+    cg.rule_subpatterns(rep, crate)
     cg.cg_controls(rep, ctx, [('M-C08a', rule_no_conflict_dropped)])
     from props import gen
     gen.rule_must_reject(ctx, rep, gen.configs(ctx), ['equal_priority'], floor=8)
